@@ -8,7 +8,7 @@ import (
 
 func init() {
 	props["C10"] = &propCheck{
-		lean:    []string{"JSight.Props.C10", "JSight.Props.C10_Build", "JSight.Props.C10_Inters", "JSight.Props.C13_Bind"},
+		lean:    []string{"JSight.Props.C10_Paths", "JSight.Props.C10", "JSight.Props.C10_Build", "JSight.Props.C10_Inters", "JSight.Props.C13_Bind"},
 		exes:    []string{"jsight-build"},
 		run:     runC10,
 		assume:  []string{"C10_Build.reorder_decls covers reorderings that move declarations (TYPE, SERVER, TAG, ENUM, MACRO) past any blocks on the catalog model; the relative order of URL / method blocks among themselves, and the content of schema entries under permutation, are decided by search; C13_Bind.order_free covers the Path directives", "the schema library is invariant under the order in which types and rules are handed to it (observed)"},
